@@ -1998,13 +1998,13 @@ pub fn run_part(part: &'static str, tier: Tier) -> Report {
 	});
 	if pre.violations.is_empty() {
 		bounds = Some(if part == "pool-mc" {
-			Bounds { at_discovery: true, workers: tier.pick(7, 9), max_depth: tier.pick(3, 6), budget_s: tier.pick(31.0, 720.0) }
+			Bounds { at_discovery: true, workers: tier.pick(7, 9), max_depth: tier.pick(3, 6), budget_s: tier.pick(45.0, 720.0) }
 		} else if part == "pool-capacity" {
-			Bounds { at_discovery: true, workers: tier.pick(3, 2), max_depth: tier.pick(5, 7), budget_s: tier.pick(31.0, 600.0) }
+			Bounds { at_discovery: true, workers: tier.pick(3, 2), max_depth: tier.pick(5, 7), budget_s: tier.pick(45.0, 600.0) }
 		} else if part == "pool-reorg" {
-			Bounds { at_discovery: true, workers: tier.pick(3, 3), max_depth: tier.pick(6, 8), budget_s: tier.pick(31.0, 600.0) }
+			Bounds { at_discovery: true, workers: tier.pick(3, 3), max_depth: tier.pick(6, 8), budget_s: tier.pick(45.0, 600.0) }
 		} else {
-			Bounds { at_discovery: false, workers: tier.pick(6, 5), max_depth: 64, budget_s: tier.pick(31.0, 720.0) }
+			Bounds { at_discovery: false, workers: tier.pick(6, 5), max_depth: 64, budget_s: tier.pick(45.0, 720.0) }
 		});
 	}
 	let mut rep = match bounds {
@@ -2036,7 +2036,7 @@ impl Engine for C14 {
 		}
 	}
 	fn parts(&self, _tier: Tier) -> Vec<(&'static str, usize)> {
-		vec![("pool-mc", 1), ("pool-capacity", 1), ("pool-reorg", 1), ("c13-pool", 1), ("node-glue", 12)]
+		vec![("pool-mc", 1), ("pool-capacity", 1), ("pool-reorg", 1), ("c13-pool", 1), ("node-glue", 8)]
 	}
 	fn run_part(&self, part: &str, tier: Tier, shard: usize, n: usize) -> Report {
 		if part == "node-glue" {
